@@ -205,6 +205,11 @@ func (rm *ResponseManager) abortRequest(ctx context.Context, requestID graphsync
 			return nil
 		})
 	}
+	if err == queryexecutor.ErrNetworkError {
+		// the response stream is closed now, so no later message can terminate this
+		// response: remember the failure in case the executor never reads the signal
+		response.networkError = true
+	}
 	select {
 	case response.signals.ErrSignal <- err:
 	default:
@@ -412,6 +417,13 @@ func (rm *ResponseManager) finishTask(task *peertask.Task, p peer.ID, err error)
 	rm.responseQueue.TaskDone(p, task)
 	response, ok := rm.inProgressResponses[requestID]
 	if !ok {
+		return
+	}
+	if response.networkError && !ipldutil.IsContextCancelErr(err) {
+		// a network error closed the response stream while the task was running and the
+		// executor did not see the signal (it had passed its last check): nothing the task
+		// queued afterwards was or will be sent, so the response ends here
+		rm.terminateRequest(requestID)
 		return
 	}
 	if _, ok := err.(hooks.ErrPaused); ok {
